@@ -7,7 +7,7 @@ import e2e_common as E
 def run(ctx):
     # design level: the reference reassembly model (shared with C16) keeps the ghost-state property
     ctx.mc("MC_Reassembler")
-    traces = ctx.e2e(E.plan(ctx, [("clean", 6), ("lossy", 12), ("tiny", 6), ("reset", 6)]))
+    traces = ctx.e2e(E.plan(ctx, [("clean", 5), ("lossy", 12), ("tiny", 6), ("reset", 6), ("late_reset", 6)]))
     ctx.validate_families(traces, "Trace_StreamPipe", E.PIPE_KINDS)
     ctx.assume("stream payload is a position-determined function keyed by stream id and sender; 'unaltered, not displaced' = the chunk equals that function at the offsets the specification predicts")
     ctx.assume("the network adversary is AdvNet (drop, duplicate, hold/reorder, corrupt, truncate, MTU drop) driven by the seed; schedules are sampled, not enumerated, in this tier")
